@@ -1,3 +1,5 @@
+//go:build drv_nyctalerts || drv_all
+
 package main
 
 import (
